@@ -48,3 +48,69 @@ connections fail one after the other, a fresh connection works. -/
 def staleThenFresh (stale : Nat) : List Turn := List.replicate stale (.pooled false false) ++ [.fresh true]
 
 end Model.C08
+
+/-! ### The hand-over of the queries queued on a dialing pipeline connection
+
+While a pipeline connection is being dialed, queries queue up on it (the first of them opened it). When
+the dial has succeeded each queued query does two things, in the order the source says
+(`reserveFirst`, a regenerated fact): it takes its slot on the dialed connection and it leaves the wait
+group. A caller that arrives after the dial (`late`) waits for the wait group to be empty before it
+reserves (`lateWaits`, a regenerated fact). Counters only; every guarded section is one step. A queued
+query that finds no slot fails with nothing transmitted although no connection failed - for the query
+that opened the connection that failure is final (its turn is `fresh`). -/
+namespace Model.C08.Handoff
+
+structure St where
+  todo : Nat      -- queued queries that have done neither step
+  mid : Nat       -- queued queries between their two steps
+  free : Nat      -- free slots of the dialed connection
+  refused : Nat   -- queued queries that found no slot
+  lateIn : Nat    -- late callers admitted by the dialed connection
+  deriving DecidableEq, Repr
+
+inductive Ev where
+  | first | second     -- a queued query does its first / second step
+  | late               -- a caller that arrived after the dial tries to reserve
+  | reply              -- the server answers a query: its slot is free again
+  deriving DecidableEq, Repr
+
+def take (s : St) : St :=
+  if s.free = 0 then { s with refused := s.refused + 1 } else { s with free := s.free - 1 }
+
+/-- the wait group: queued queries that have not called `Done` yet -/
+def wg (reserveFirst : Bool) (s : St) : Nat := if reserveFirst then s.todo + s.mid else s.todo
+
+def step (reserveFirst lateWaits : Bool) (cap : Nat) (s : St) : Ev → St
+  | .first =>
+    if s.todo = 0 then s else
+      let s' := { s with todo := s.todo - 1, mid := s.mid + 1 }
+      if reserveFirst then take s' else s'
+  | .second =>
+    if s.mid = 0 then s else
+      let s' := { s with mid := s.mid - 1 }
+      if reserveFirst then s' else take s'
+  | .late =>
+    if lateWaits && wg reserveFirst s != 0 then s        -- blocked in Wait(): not enabled
+    else if s.free = 0 then s else { s with free := s.free - 1, lateIn := s.lateIn + 1 }
+  | .reply => if s.free < cap then { s with free := s.free + 1 } else s
+
+def run (reserveFirst lateWaits : Bool) (cap : Nat) (evs : List Ev) (s : St) : St :=
+  evs.foldl (step reserveFirst lateWaits cap) s
+
+/-- `n` queries queued behind the dial of a connection that takes `cap` queries at a time -/
+def init (n cap : Nat) : St := ⟨n, 0, cap, 0, 0⟩
+
+/-- The schedule the harness enforces: one queued query is descheduled at the entry of its reservation on the
+dialed connection (whatever it does before that has happened), the others run to the end, `k` late callers
+try, the held query goes on, `k` callers try again (those that were blocked). -/
+def gateSchedule (reserveFirst : Bool) (n k : Nat) : List Ev :=
+  (if reserveFirst then [] else [.first]) ++
+  (List.replicate (n - 1) [Ev.first, Ev.second]).flatten ++
+  List.replicate k .late ++
+  (if reserveFirst then [.first, .second] else [.second]) ++
+  List.replicate k .late
+
+/-- worst case for the retry loop: the query that found no slot is the one that opened the connection -/
+def openerTurn (s : St) : Turn := .fresh (s.refused == 0)
+
+end Model.C08.Handoff
